@@ -282,6 +282,15 @@ def gen_request(rng, w, p, names):
     elif cmd == "set_np":
         return {"op": "req", "cmd": "set", "props": {"name": name, "waiting": waiting,
                                                      "options": {"numprocesses": rng.choice([0, 1, 2, 3, -1])}}}
+    elif cmd == "set_multi":
+        import shlex
+        pool = {"numprocesses": [0, 1, 2, 3], "graceful_timeout": [0.1, 0.2, 0.3, 0], "warmup_delay": [0, 0.1, 0.2],
+                "stop_signal": [SIGINT, SIGTERM, SIGQUIT, SIGUSR1], "stop_children": [True, False],
+                "send_hup": [True, False], "cmd": ["simworker " + shlex.quote(w)], "env": [{"A": "1"}, {"B": "2"}],
+                "working_dir": ["/tmp"], "max_retry": [1, 3], "respawn": [True], "max_age": [0]}
+        keys = rng.sample(sorted(pool), rng.choice([1, 1, 2, 2, 3]))
+        return {"op": "req", "cmd": "set", "props": {"name": name, "waiting": waiting,
+                                                     "options": {k: rng.choice(pool[k]) for k in keys}}}
     elif cmd == "set_opt":
         import shlex
         key = rng.choice(["cmd", "env", "working_dir", "max_age", "graceful_timeout", "warmup_delay", "stop_children",
